@@ -12,6 +12,7 @@
 //! Monitors (S) are evaluated on what the harness itself knows (who holds which secret key, which bytes went
 //! where), never on the model's prediction.
 use std::{
+    future::Future as _,
     collections::{BTreeMap, BTreeSet, HashMap, HashSet},
     net::SocketAddr,
     sync::Arc,
